@@ -62,6 +62,16 @@ impl<K: Clone + PartialEq + Eq + Hash + std::fmt::Debug + std::cmp::PartialOrd, 
         Arc::clone(entry)
     }
 
+    /// Put evicted entries back, because writing them back failed and they
+    /// would be lost otherwise; the cache may exceed its limit for a while
+    pub(crate) fn put_back(&self, entries: Vec<(K, AsyncLruCacheEntry<V>)>) {
+        let mut r = self.rmap.write().unwrap();
+
+        for (key, entry) in entries {
+            r.entry(key).or_insert(entry);
+        }
+    }
+
     /// Drop one pending entry which can't be populated, so that it is neither
     /// committed to rmap by someone else nor taken as populated later
     pub(crate) fn remove_from_wmap(&self, key: &K) {
